@@ -30,6 +30,13 @@ func main() {
 		checkMain(os.Args[2:])
 		return
 	}
+	if len(os.Args) > 2 && os.Args[1] == "replay" {
+		repo := os.Getenv("VERIF_REPO")
+		if repo == "" {
+			repo = "/repo"
+		}
+		os.Exit(gvc.Replay(repo, "/verif", os.Args[2]))
+	}
 	repo := flag.String("repo", "/repo", "repository root")
 	tags := flag.String("tags", "verif", "build tags")
 	trusted := flag.String("trusted", "/verif/gvc/trusted", "directory of trusted specs")
